@@ -6,6 +6,7 @@
 package vclock
 
 import (
+	"context"
 	"sort"
 	"sync"
 	"time"
@@ -237,4 +238,21 @@ func Pending() int {
 		}
 	}
 	return n
+}
+
+// WithTimeout / WithDeadline replace the context functions in rewritten files: with the
+// logical clock enabled no real timer is armed (the context only ends when cancelled, or
+// when the logical clock is advanced past the deadline and the harness cancels it).
+func WithTimeout(parent context.Context, d time.Duration) (context.Context, context.CancelFunc) {
+	if !Enabled() {
+		return context.WithTimeout(parent, d)
+	}
+	return context.WithCancel(parent)
+}
+
+func WithDeadline(parent context.Context, t time.Time) (context.Context, context.CancelFunc) {
+	if !Enabled() {
+		return context.WithDeadline(parent, t)
+	}
+	return context.WithCancel(parent)
 }
